@@ -143,6 +143,19 @@ def guppy_object_from_py(
             return GuppyObject(ty, builder.load(hugr_val))
 
 
+def _is_updatable(v: Any) -> bool:
+    """Checks if `update_packed_value` is able to update the given Python value."""
+    match v:
+        case tuple(vs):
+            return all(_is_updatable(v) for v in vs)
+        case GuppyObject() | GuppyStructObject() | None:
+            return True
+        case list(vs):
+            return len(vs) > 0
+        case _:
+            return False
+
+
 def update_packed_value(v: Any, obj: "GuppyObject", builder: DfBase[P]) -> bool:
     """Given a Python value `v` and a `GuppyObject` `obj` that was constructed from `v`
     using `guppy_object_from_py`, tries to update the wires of any `GuppyObjects`
@@ -165,6 +178,11 @@ def update_packed_value(v: Any, obj: "GuppyObject", builder: DfBase[P]) -> bool:
             assert isinstance(obj._ty, NoneType)
         case tuple(vs):
             assert isinstance(obj._ty, TupleType)
+            # Tuples are immutable, so we cannot replace the components that we are not
+            # able to update. In that case, leave `obj` untouched so that the caller can
+            # replace the whole tuple with it.
+            if not all(_is_updatable(v) for v in vs):
+                return False
             wire_iterator = builder.add_op(
                 ops.UnpackTuple(), obj._use_wire(None)
             ).outputs()
